@@ -54,12 +54,14 @@ ASSUMPTIONS = [
     "boundary faces stay planar under the generator's node perturbation, so p(x_f) at the "
     "face centre is the trace of the linear field",
     "default continuity point eta (1/3 on simplex grids, 0 otherwise)",
+    "tolerance 1e-9 relative to ||K|| |a| max(face area) (flux) resp. max(|c|, |a| diam) "
+    "(trace); observed on the unchanged tree: median 1e-15, max 3e-12 over 3000 cases",
 ]
 LEVEL_TEXT = ("Exploration: on every generated (grid, SPD tensor, boundary mix, inverter) the "
               "MPFA matrices reproduce the flux of a linear pressure on every face, the trace "
-              "on every boundary face and zero flux for a constant, to 1e-10 relative.")
+              "on every boundary face and zero flux for a constant, to 1e-9 relative.")
 TECHNIQUE = "reference-model monitor (closed-form Darcy flux of linear fields) on Mpfa matrices"
-TOL = 1e-10
+TOL = 1e-9
 
 
 def _case(recipe, K, a, c, bc_mode, bc_seed, p_dir):
